@@ -4,3 +4,7 @@ ASSUME.update({
  "C20": ["SHA-1/SHA-224/SHA-256 are Go's crypto implementations (RefFromBytes is compared with crypto/* directly by the harness, not modelled)",
          "the functional HasPrefix/EqualString statement for unknown-hash refs and the Other-ref ordering are covered by the correspondence only"],
 })
+ASSUME.update({
+ "C10": ["leveldb / modernc kv / sqlite engine internals and their durability are not modelled (validated against the proved SPEC by the correspondence run only)",
+         "keys are non-empty (hypothesis op_ok); NUL bytes are not generated (the index never writes them)"],
+})
